@@ -146,6 +146,63 @@ MUTANTS = {
 """,
         "then/else bodies exchanged when the then body has more than three nodes",
     ),
+    # --- round 3 of held-out classes
+    "E1-process-wide-pool-of-serialised-attributes": (
+        "src/spox/_attributes.py",
+        """        if self._cached_onnx is None:
+            self._cached_onnx = self._to_onnx_deref()
+        return self._cached_onnx
+""",
+        """        if self._cached_onnx is None:
+            try:
+                key = (type(self), self._name, self._value)
+                hash(key)
+            except TypeError:
+                key = None
+            pool = Attr.__dict__.get("_POOL")
+            if pool is None:
+                pool = {}
+                Attr._POOL = pool
+            if key is not None and key in pool:
+                self._cached_onnx = pool[key]
+            else:
+                self._cached_onnx = self._to_onnx_deref()
+                if key is not None:
+                    pool[key] = self._cached_onnx
+        return self._cached_onnx
+""",
+        "process-wide pool of serialised AttributeProtos keyed by (class, name, value): ==-equal values (0.0 / -0.0, np.float32(2) / np.int64(2)) share the first one's serialisation",
+    ),
+    "F1-recursive-dfs": (
+        "src/spox/_traverse.py",
+        """    postorder: List[V] = []
+    visited: Set[V] = set()
+    stack: Set[V] = set()
+""",
+        """    postorder: List[V] = []
+    visited: Set[V] = set()
+    stack: Set[V] = set()
+
+    def _dfs(u):
+        if u in stack and raise_on_cycle:
+            raise RuntimeError("The graph contains a cycle. Was the structure tampered with?")
+        if u in visited:
+            return
+        visited.add(u)
+        stack.add(u)
+        for v in adj(u):
+            _dfs(v)
+        if post_callback is not None:
+            post_callback(u)
+        postorder.append(u)
+        stack.remove(u)
+
+    for s in sources:
+        _dfs(s)
+    return postorder
+""",
+        "iterative_dfs rewritten recursively: same post-order, one Python frame per operator on the longest dependency path",
+    ),
     # --- round 2 of held-out classes
     "Q1-scopes-relaxed-from-a-fifo-worklist": (
         [
